@@ -433,10 +433,10 @@ def rule_r5(repo):
 def run(repo, check):
     r1 = rule_r1(repo)
     check.add(r1)
-    check.add(rule_r2(repo))
-    check.add(rule_r3(repo))
-    check.add(rule_r4(repo))
-    check.add(rule_r5(repo))
+    check.run_rule(rule_r2, repo)
+    check.run_rule(rule_r3, repo)
+    check.run_rule(rule_r4, repo)
+    check.run_rule(rule_r5, repo)
     check.coverage_extra = {
         'states': 5, 'transitions': r1.extra['cases'], 'traces_validated_against_impl': 0, 'samples': r1.extra['samples'] or [{'note': 'none'}],
         'model': 'transducer table of process_embedded_query_expr extracted from its syntax tree on this run: 5 states x 8 character classes x 9 '
